@@ -258,7 +258,8 @@ def eval_c09(ctx, tr):
         ctx.check('C09.not_self', x.event_parent_id != x.event_id and not any(c is x for r in x.event_results.values() for c in r.event_children), ev=lab)
     for r in tr.recs:
         if r.kind == 'BUSREAD':
-            ctx.check('C09.event_bus', r.got == r.bus, h=r.h, got=r.got)
+            after_fwd = bool(r.f.get('path')) and r.f['path'][-1] != ctx.buses[r.bus].name
+            ctx.check('C09.event_bus_after_forward' if after_fwd else 'C09.event_bus', r.got == r.bus, h=r.h, got=r.got)
 
 
 # ------------------------------------------------------------------ C11
@@ -303,6 +304,27 @@ def eval_c11(ctx, tr, final_snaps):
             ev = evs[r.ev]
             has_err = any(rr.error is not None for rr in ev.event_results.values())
             ctx.check('C11.accessor_raises_same', not has_err, ev=r.ev, why='raise_if_any=True returned although a handler error is recorded')
+
+
+# ------------------------------------------------------------------ C14 (generic part)
+def eval_c14(ctx, tr, fs, finished):
+    excused = set()
+    for h, x in tr.X.items():
+        if x.outcome == 'cancelled':
+            excused.update(tr.desc(tr.Eh[h].ev))
+    for (bus, lab) in _uniq(tr.accepted()):
+        if lab in excused:
+            continue
+        ok = all(tr.count(bus, lab, n) == 1 for n in ctx.expected(bus, lab))
+        s_ = fs.get(lab)
+        done = s_ is not None and s_['status'] == 'completed'
+        ctx.check('C14.accepted_processed', ok and done, bus=bus, ev=lab, status=s_['status'] if s_ else None,
+                  why='dispatch() accepted the event but the bus did not process it')
+    for r in tr.DX:
+        # a rejected dispatch leaves no trace
+        e = ctx.events[r.ev]
+        inhist = e.event_id in ctx.buses[r.bus].event_history and not any(d.ev == r.ev and d.bus == r.bus for d in tr.DR)
+        ctx.check('C14.no_trace', not inhist, bus=r.bus, ev=r.ev)
 
 
 # ------------------------------------------------------------------ C15
@@ -478,6 +500,7 @@ def evaluate(ctx, finished):
     eval_c09(ctx, tr)
     eval_c10(ctx, tr, fs, finished)
     eval_c11(ctx, tr, fs)
+    eval_c14(ctx, tr, fs, finished)
     eval_c15(ctx, tr)
     ctx.check('GEN.main_finished', bool(finished))
     return tr
